@@ -123,6 +123,7 @@ pub fn evaluate(prop: &str, case: &Case, model: &Model, hist: &History) -> Verdi
         "C09" => crate::oracle3::c09(&a, &mut v),
         "C13" => crate::oracle3::c13(&a, &mut v, "C13"),
         "C14" => crate::oracle3::c13(&a, &mut v, "C14"),
+        "C15" => crate::oracle3::c15(&a, &mut v),
         "C17" => crate::oracle3::c17(&a, &mut v),
         "C18" => crate::oracle3::c18(&a, &mut v),
         _ => {}
